@@ -211,6 +211,7 @@ type (
 
 		indexes  []*index.Reader
 		releaser indexReleaser
+		fetched  bool
 
 		tagDetails    map[string]query.TagDetails
 		tagConverters map[string][]string
@@ -2376,9 +2377,10 @@ func (mgr *Manager) GetView() View {
 }
 
 func (v *View) fetch() error {
-	if len(v.indexes) != 0 {
+	if v.fetched {
 		return nil
 	}
+	v.fetched = true
 	v.tagDetails = make(map[string]query.TagDetails)
 	v.tagConverters = make(map[string][]string)
 	v.converters = make(map[string]index.ConverterAccess)
